@@ -37,6 +37,7 @@ def run(ctx):
     g = sp.cfg
     ctx.rule("C14.allocate-write-atomic", "no suspension point lies between the allocation (inside Codec.encode) and the transport write / journal write in send_msg")
     ctx.rule("C14.await-in-rewind-window", "no suspension point while next_num_out holds a temporary (rewound) value, unless window and send section share one asyncio.Lock")
+    ctx.rule("C14.save-rewind-atomic", "the value restored after a replay is read from next_num_out with no suspension point before the rewind starts")
     ctx.rule("C14.task-local-frame", "the bytes journaled and written are a task-local value of that task's own encode (no shared attribute carries the frame across an await)")
     ctx.rule("C14.encode-synchronous", "Codec.encode / allocate_next_num_out / persist_msg contain no suspension point")
     ctx.assumptions += ["asyncio runs one task at a time and switches only at await (trusted)",
@@ -136,6 +137,27 @@ def run(ctx):
                 ctx.instance("C14.await-in-rewind-window", f"_process_resend[await {key}]", ok,
                              f"`await {key}(...)` suspends while next_num_out holds the rewound value: a concurrent send_msg takes a number "
                              "that is being replayed (duplicate MsgSeqNum on the wire, DuplicateSeqNoError in the journal)", loc(aw))
+    # ---- rule 2b: the saved value is current when the rewind starts (no suspension between save and rewind)
+    from sa.rewind import Rewind
+    rw = Rewind(repo)
+    if rw.rewinds:
+        g2 = rw.cfg
+        between = g2.reach(rw.save_nodes, avoid=rw.rewinds, exc=False, include_src=False)
+        can = {n for n in between if any(g2.reaches(n, t, exc=False) for t in rw.rewinds)}
+        bad = []
+        for nid in sorted(can):
+            node = g2.nodes[nid]
+            if node.ast is None or node.kind == "handler":
+                continue
+            astn = node.ast if node.kind in ("stmt", "test") else (node.ast.iter if node.kind == "for" else None)
+            if astn is not None and res.node_suspends(astn, rw.fn):
+                bad.append(nid)
+        # and every path to the rewind passes the save (a save taken on an earlier, different path is stale as well)
+        dom_ok = all(not g2.reaches(g2.entry, t, avoid=set(rw.save_nodes), exc=False) for t in rw.rewinds)
+        ctx.instance("C14.save-rewind-atomic", "_process_resend[save..rewind]", not bad and dom_ok,
+                     "a suspension point lies between saving next_num_out and rewinding it: a message sent by another task during that await "
+                     "advances the counter, the stale saved value is restored at the end and the next new message re-uses a MsgSeqNum already on the wire "
+                     f"({[repr(g2.nodes[b]) for b in bad][:2]})", loc(g2.nodes[bad[0]].ast) if bad else loc(rw.fn), [repr(g2.nodes[b]) for b in bad])
     # restore happens before control can return to the event loop's other tasks *after* the window:
     # every path from the last restore to the function exit is checked by C06 (bracket); here only the window.
 
